@@ -89,6 +89,7 @@ pub mod env {
         let n = crate::conn::count_replies(&o.replies);
         if n == 0 { (Err(1), b.len()) } else if o.replies.starts_with(b"-") { (Err(2), 0) } else { (Ok((Bytes::new(), Bytes::new(), usize::MAX)), 0) }
     }
+    pub fn wal_only_entry_replayed(seg_max: [u64; 2], ts: u64) -> bool { crate::conn::wal_only_entry_replayed(seg_max, ts) }
     /// natively: the buffer (the GET frames followed by one padded PING, so that run() enters its batching
     /// branch) goes through the real run(); answered <=> one reply per GET the collector consumed, plus the PING
     pub fn consumed_gets_answered(buffer: &[u8], count: usize, threshold: usize) -> bool {
